@@ -301,6 +301,9 @@ impl NoLockingPool {
     
     /// Allocate memory block of given size
     pub fn alloc(&mut self, size: usize) -> Result<MemOffset> {
+        if size == 0 || size > usize::MAX - (self.config.alignment - 1) {
+            return Err(ZiporaError::invalid_data("Allocation size must be non-zero and representable after alignment"));
+        }
         let aligned_size = self.align_up(size);
         
         if aligned_size <= self.config.max_fast_block_size {
@@ -312,6 +315,9 @@ impl NoLockingPool {
     
     /// Free previously allocated memory block
     pub fn free(&mut self, offset: MemOffset, size: usize) -> Result<()> {
+        if size == 0 || size > usize::MAX - (self.config.alignment - 1) {
+            return Err(ZiporaError::invalid_data("Block size was never allocated by this pool"));
+        }
         let aligned_size = self.align_up(size);
         
         // Check if this is at the end of used memory
@@ -486,6 +492,9 @@ impl MutexBasedPool {
     }
     
     pub fn alloc(&self, size: usize) -> Result<MemOffset> {
+        if size == 0 || size > usize::MAX - (self.config.alignment - 1) {
+            return Err(ZiporaError::invalid_data("Allocation size must be non-zero and representable after alignment"));
+        }
         let aligned_size = self.align_up(size);
         
         if aligned_size <= self.config.max_fast_block_size {
@@ -496,6 +505,9 @@ impl MutexBasedPool {
     }
     
     pub fn free(&self, offset: MemOffset, size: usize) -> Result<()> {
+        if size == 0 || size > usize::MAX - (self.config.alignment - 1) {
+            return Err(ZiporaError::invalid_data("Block size was never allocated by this pool"));
+        }
         let aligned_size = self.align_up(size);
         
         if aligned_size <= self.config.max_fast_block_size {
@@ -640,6 +652,9 @@ impl LockFreePool {
     }
     
     pub fn alloc(&self, size: usize) -> Result<MemOffset> {
+        if size == 0 || size > usize::MAX - (self.config.alignment - 1) {
+            return Err(ZiporaError::invalid_data("Allocation size must be non-zero and representable after alignment"));
+        }
         let aligned_size = self.align_up(size);
         
         if aligned_size <= self.config.max_fast_block_size {
@@ -650,6 +665,9 @@ impl LockFreePool {
     }
     
     pub fn free(&self, offset: MemOffset, size: usize) -> Result<()> {
+        if size == 0 || size > usize::MAX - (self.config.alignment - 1) {
+            return Err(ZiporaError::invalid_data("Block size was never allocated by this pool"));
+        }
         let aligned_size = self.align_up(size);
         
         if aligned_size <= self.config.max_fast_block_size {
@@ -871,6 +889,9 @@ impl ThreadLocalPool {
     }
     
     pub fn alloc(&self, size: usize) -> Result<MemOffset> {
+        if size == 0 || size > usize::MAX - (self.config.alignment - 1) {
+            return Err(ZiporaError::invalid_data("Allocation size must be non-zero and representable after alignment"));
+        }
         let aligned_size = self.align_up(size);
         
         if aligned_size <= self.config.max_fast_block_size {
@@ -907,6 +928,9 @@ impl ThreadLocalPool {
     }
     
     pub fn free(&self, offset: MemOffset, size: usize) -> Result<()> {
+        if size == 0 || size > usize::MAX - (self.config.alignment - 1) {
+            return Err(ZiporaError::invalid_data("Block size was never allocated by this pool"));
+        }
         let aligned_size = self.align_up(size);
         
         if aligned_size <= self.config.max_fast_block_size {
@@ -975,6 +999,9 @@ impl FixedCapacityPool {
     }
     
     pub fn alloc(&mut self, size: usize) -> Result<MemOffset> {
+        if size == 0 || size > usize::MAX - (self.config.alignment - 1) {
+            return Err(ZiporaError::invalid_data("Allocation size must be non-zero and representable after alignment"));
+        }
         let aligned_size = self.align_up(size);
         
         // Check capacity before allocation
